@@ -2344,6 +2344,27 @@ def c15(rep, tier, seed, wd, replay):
             found = True
         elif crashed_:
             rep.broken.append(("implementation-crash:conc-wide", err_[-1500:], False))
+    # first use after start-up: several requests for accounts that are still LOCKED arrive together, and each learns the lock state
+    # a little later than the one before (`stalelock`: by the time it acts on "locked", others may have unlocked the account,
+    # or be unlocking it) — all of them, and the requests that follow, complete
+    faccts, fperms, fadm = hist.std_config(hist.interop_keys(dh), nacct=4, locked=False)
+    fcfg = ["nocache", "stalelock 90"] + hist.config_lines(faccts, fperms, fadm)
+    r32_ = (bytes([0xA7]) * 32).hex()
+    sgn = lambda a_, tg_: "sign %s - %s %s,%s -" % (hx("client1"), conc_.name(a_), (DOM_RANDAO + bytes(28)).hex(), (bytes([tg_]) * 32).hex())
+    for pgo in ([2, None] if tier != "thorough" else [1, 2, 16, None]):
+        cops = [(q_, sgn(faccts[0], 0x10 + q_)) for q_ in range(5)] + [(2, conc_.att_op(conc_.key(faccts[0]), 1, 5, 0)), (3, conc_.atts_op([conc_.att_item(conc_.name(a_), 1, 6, 1) for a_ in faccts[:3]]))] + \
+               [(400 + 10 * q_, sgn(faccts[q_ % 2], 0x30 + q_)) for q_ in range(4)] + [(900, conc_.att_op(conc_.name(faccts[0]), 1, 9, 2))]
+        sl = conc_.scenario_lines([], "-", cops, 0)
+        io_, crashed_, err_ = _ri(dh, wd, ["reset"] + fcfg + sl, env={"GOMAXPROCS": str(pgo)} if pgo else None, timeout=600)
+        rep.dist("scenario", "first-use-stale-lock-state")
+        rep.count("firstuse|%s" % pgo, True)
+        if any(o.startswith("TIMEOUT") for o in io_):
+            rep.violation("deadlock", "concurrent requests did not all complete within the watchdog (first use of accounts that are still locked): " + [o for o in io_ if o.startswith("TIMEOUT")][0],
+                          {"config": fcfg, "scenario": sl, "gomaxprocs": pgo})
+            found = True
+            break
+        elif crashed_:
+            rep.broken.append(("implementation-crash:conc-first-use", err_[-1500:], False))
     # stores in which SEVERAL keys hold records that cannot be read or decoded: batches naming them fail (closed) and return;
     # everything else naming those keys afterwards completes too
     caccts, cperms, cadm = hist.std_config(hist.interop_keys(dh), nacct=6, locked=False)
